@@ -9,6 +9,7 @@ the raw gamma entries, the bound is NOT subtracted) and returns the first index 
 -/
 import FairModel.Properties.C09
 import FairModel.Properties.C06X
+import FairModel.Properties.C07
 
 namespace C09
 open Grid
@@ -594,5 +595,68 @@ example (out : FitOut) (h : xLagrFit = some out) :
   (fit_trains_real_lagrangian_minimisers (Moments.eventOf .dp) xFitRows 1 Moments.defaultUtil 1 1 xLearner _ _ (1/2) _ out
     (fun h' => h'.length = 4 ∧ ∀ x ∈ h', x = 0 ∨ x = 1) (by decide) (by decide +kernel) (fun _ hh => hh)
     (fun w h' _ => xLearner_exact w h') xLearner_shape h).2.2.2
+
+/-! ### clause (b), BoundedGroupLoss: the regression branch of the loop (`is_classification_reduction = False`)
+
+`Grid.fitLoop` models the classification branch only.  For a loss moment the source passes `y` unchanged and the raw
+weights `constraints.signed_weights(λ)` (objective in the span: nothing is added, nothing relabelled, no `abs`); that
+column of `GridSearch.fit` is `Oracle.callGridLoss` (C07's model over `Generated/OracleSrc.lean`).  Composition with
+`C07.loss_grid_identity`: a learner that minimises the weighted loss it is given minimises `λ·γ` over its class. -/
+
+/-- **BoundedGroupLoss, one grid point**: the learner receives the labels unchanged and the weights
+    `w = signed_weights(λ)` (or, when all labels coincide, a constant DummyClassifier is trained); a predictor `h` that
+    minimises the weighted loss `Σ wᵢ·loss(yᵢ, hᵢ)` over a class `H` minimises `λ·γ(h)` over `H` (any loss of the
+    moment, any rational λ; `rows ≠ []` is needed: for no rows both sides are 0 by `x/0 = 0`, and the source rejects
+    empty data). -/
+theorem bgl_grid_point_minimises_lambda_gamma (l : Moments.Loss) (rows : List Moments.LRow) (lam : List Rat)
+    (hne : rows ≠ []) (H : List Rat → Prop) (h : List Rat)
+    (hmin : ∀ h', H h' →
+      Moments.dot (Moments.bglSignedWeights rows (some lam)) (Moments.lossOf l rows h)
+        ≤ Moments.dot (Moments.bglSignedWeights rows (some lam)) (Moments.lossOf l rows h')) :
+    (Oracle.callGridLoss rows lam = .fit (rows.map (·.y)) (Moments.bglSignedWeights rows (some lam)) ∨
+      ∃ c, Oracle.callGridLoss rows lam = .dummy c (rows.map (·.y)) (Moments.bglSignedWeights rows (some lam)) ∧
+        ∀ r ∈ rows, r.y = c) ∧
+    ∀ h', H h' → Moments.dot lam (Moments.bglGamma l rows h) ≤ Moments.dot lam (Moments.bglGamma l rows h') := by
+  refine ⟨(C07.loss_grid_identity l rows lam h hne).1, ?_⟩
+  intro h' hh'
+  have e := (C07.loss_grid_identity l rows lam h hne).2
+  have e' := (C07.loss_grid_identity l rows lam h' hne).2
+  have hn : (0 : Rat) < (rows.length : Rat) := by
+    have := List.length_pos_of_ne_nil hne
+    exact_mod_cast this
+  have hm := hmin h' hh'
+  rw [e, e'] at hm
+  exact le_of_mul_le_mul_left hm hn
+
+/-- all hypotheses at once: 3 rows, two groups, 0/1 loss, λ = (1, 2); the class {[1,0,0], [0,0,0], [1,1,1]}; the
+    labeling [1,0,0] has weighted loss 3·(1/2) and is the minimiser -/
+example : ∀ h', (h' = [1, 0, 0] ∨ h' = [0, 0, 0] ∨ h' = [1, 1, 1]) →
+    Moments.dot [1, 2] (Moments.bglGamma Moments.Loss.zeroOne [⟨1, "a"⟩, ⟨0, "b"⟩, ⟨1/2, "b"⟩] [1, 0, 0])
+      ≤ Moments.dot [1, 2] (Moments.bglGamma Moments.Loss.zeroOne [⟨1, "a"⟩, ⟨0, "b"⟩, ⟨1/2, "b"⟩] h') :=
+  (bgl_grid_point_minimises_lambda_gamma Moments.Loss.zeroOne [⟨1, "a"⟩, ⟨0, "b"⟩, ⟨1/2, "b"⟩] [1, 2] (by decide)
+    (fun h' => h' = [1, 0, 0] ∨ h' = [0, 0, 0] ∨ h' = [1, 1, 1]) [1, 0, 0]
+    (by rintro _ (rfl | rfl | rfl) <;> decide +kernel)).2
+
+/-- EqualizedOdds: all hypotheses of `gridsearch_eo_end_to_end` on the run `xFitWith` (both groups have both labels) -/
+example (out : FitOut)
+    (h : xFitWith (fun p => Moments.gamma (Moments.eventOf .eo) xFitRows 1 Moments.defaultUtil (toRat p)) = some out) :
+    ∃ _ : out.best < out.preds.length,
+      (∃ D, Fairness.eodds "equalized_odds_difference" .toOverall .worstCase 1
+          (Cross.toFrame (fun r => r.c == none) xFitRows (toRat out.preds[out.best])) = some (.value (XR.fin D)) ∧
+        0 ≤ D ∧ D ≤ 1/2 + (1 - 1) / 1) ∧
+      (∃ D, Fairness.eodds "equalized_odds_difference" .between .worstCase 1
+          (Cross.toFrame (fun r => r.c == none) xFitRows (toRat out.preds[out.best])) = some (.value (XR.fin D)) ∧
+        0 ≤ D ∧ D ≤ 2 * (1/2 + (1 - 1) / 1)) := by
+  have hp := xFitWith_preds _ out h
+  apply gridsearch_eo_end_to_end xFitRows none false (fun lam => lam) [0, 0, 0, 0] (fun d => d.map (·.1))
+    (fun p => (p.map (fun x => if x = 1 then (1 : Rat) / 4 else 0)).sum) 1 [[1, 1, -1, -1], [-1, -1, -1, 1/2]] out (1/2)
+    (by norm_num) (le_refl _) h
+  · rw [hp]; decide +kernel
+  · rw [hp]; decide +kernel
+  · rw [hp]; exact ⟨[1, 1, 0, 0], by simp, by decide +kernel⟩
+  · decide +kernel
+  · decide +kernel
+  · decide +kernel
+  · decide +kernel
 
 end C09
